@@ -420,6 +420,50 @@ func sharePhi(a, b ssa.Value) bool {
 	return in(a, b) || in(b, a)
 }
 
+// ruleC02i: only complete files ever appear in a table's directory.
+func ruleC02i(c *Ctx, rule string) {
+	c.describe(rule, "reg: the row store creates or opens files for writing only outside the table directory; files enter rowStoreOptions.dir exclusively through os.Rename of a synced, closed file — openRowStore trusts the lexicographically last data file in that directory")
+	n := 0
+	for _, fn := range c.P.ModFns {
+		if pkgOf(fn) != "z" {
+			continue
+		}
+		for _, call := range calls(fn) {
+			cn := calleeName(call)
+			var pathArg ssa.Value
+			switch cn {
+			case "io/ioutil.TempFile", "os.CreateTemp":
+				pathArg = call.Common().Args[0]
+			case "os.Create":
+				pathArg = call.Common().Args[0]
+			case "os.OpenFile":
+				if fl, ok := constInt(call.Common().Args[1]); ok && fl&(0x1|0x2|0x40|0x200|0x400) == 0 {
+					continue // read-only
+				}
+				pathArg = call.Common().Args[0]
+			case "io/ioutil.WriteFile", "os.WriteFile":
+				pathArg = call.Common().Args[0]
+			default:
+				continue
+			}
+			top := fn
+			for top.Parent() != nil {
+				top = top.Parent()
+			}
+			if top.Signature.Recv() == nil || !hasPrefixAny(typeStr(top.Signature.Recv().Type()), "*z.rowStore", "*z.fileStore") {
+				continue
+			}
+			n++
+			c.touch(fn)
+			inDir := dependsOn(pathArg, func(v ssa.Value) bool {
+				return isFieldLoad(v, "z.rowStoreOptions.dir") || isFieldLoad(v, "z.fileStore.filename")
+			})
+			c.check(rule, stableName(fn)+" creates "+cn+" outside the table directory", call.Pos(), !inDir, "the path does not derive from rowStoreOptions.dir / fileStore.filename", "a file is created for writing inside the table directory: a crash before it is complete leaves a partial file that openRowStore may pick as the newest data file (or that shadows the real one)")
+		}
+	}
+	c.floor(rule, "file-creating calls in the row store", n, 2)
+}
+
 func init() {
 	register(&PropSpec{
 		ID:          "C02",
@@ -432,6 +476,6 @@ func init() {
 		}, func(c *Ctx) { ruleC02e(c, "C02.e") }, func(c *Ctx) { ruleC02f(c, "C02.f") }, func(c *Ctx) { ruleLockRegions(c, "C02.g") }, func(c *Ctx) {
 			c.describe("C02.h", "dom: a rejected entry still advances the offset (t.skip)")
 			ruleSkipOnReject(c, "C02.h")
-		}},
+		}, func(c *Ctx) { ruleC02i(c, "C02.i") }, func(c *Ctx) { ruleC12a(c, "C02.j") }},
 	})
 }
